@@ -17,7 +17,7 @@ import (
 // themselves, in keep-going and fail-fast builds, at any position of the graph. The history engine reports a build that
 // does not exit on its own (C04:build-did-not-terminate) and a build that exits 0 while a selected target is unresolved.
 var timeoutProfile = histeng.Profile{MaxTargets: 6, Edits: []string{"bump-nonce"},
-	ExtSteps: []string{"set-slow", "set-slow", "set-slow", "set-fail", "set-selfkill", "clear-switches"},
+	ExtSteps: []string{"set-slow", "set-slow", "set-slow", "set-fail", "set-softfail", "set-selfkill", "clear-switches"},
 	Timeouts: true, TimeoutPct: 70, FailFast: true, MinSteps: 2, MaxSteps: 6, SubsetBuilds: true}
 
 func runTimeouts(h histeng.History) (pbt.Result, error) {
